@@ -37,6 +37,24 @@ def shared_module_dicts(repo):
     return out
 
 
+def session_tests(f, g):
+    """test nodes that compare the object's session cache with the current thread's by identity (`cache is not database._get_cache()`), read through
+    locals that are bound once (`current_cache = database._get_cache()`)"""
+    from ..q import resolve_names
+    out = []
+    for t in g.nodes:
+        if t.kind != 'test': continue
+        rt = resolve_names(f.node, t.ast)
+        cmps = [c for c in ast.walk(rt) if isinstance(c, ast.Compare) and len(c.ops) == 1 and isinstance(c.ops[0], ast.IsNot)
+                and any(('_session_cache_' in norm(x) or '_get_cache()' in norm(x)) for x in (c.left, c.comparators[0]))]
+        if not cmps: continue
+        # the test must come out true whenever the two caches differ, whatever else it mentions: `other_condition and cache is not current` does not
+        texts = {norm(c) for c in cmps}
+        from ..typestate import eval_test
+        if eval_test(rt, lambda text, node: True if text in texts else None) is True: out.append(t)
+    return out
+
+
 def run(ctx):
     repo, cg = ctx.repo, ctx.cg
     shared = shared_module_dicts(repo)
@@ -144,7 +162,7 @@ def run(ctx):
     # ---------------------------------------------------------------- CROSS
     for qual in ('Attribute.validate', 'Set.validate', 'SetInstance.__contains__', 'Entity._load_', 'Entity.load'):
         f = repo.fn(CORE, qual); g = cg.cfg(f)
-        tests = [t for t in g.nodes if t.kind == 'test' and re.search(r'\bis not\b', norm(t.ast)) and ('_session_cache_' in norm(t.ast) or '_get_cache()' in norm(t.ast))]
+        tests = session_tests(f, g)
         ok = bool(tests)
         for t in tests:
             ts = [y for y, lab in g.succ[t.id] if lab == 'T']
@@ -157,7 +175,7 @@ def run(ctx):
              'Entity._load_': {}, 'Entity.load': {}}
     for qual, allowed_src in EARLY.items():
         f = repo.fn(CORE, qual); g = cg.cfg(f)
-        tests = [t for t in g.nodes if t.kind == 'test' and re.search(r'\bis not\b', norm(t.ast)) and ('_session_cache_' in norm(t.ast) or '_get_cache()' in norm(t.ast))]
+        tests = session_tests(f, g)
         allowed = {norm(ast.parse(k, mode='eval').body, limit=1000) for k in allowed_src}
         for k, why in allowed_src.items(): ctx.exception('C22-CROSS', '%s: `%s`' % (qual, k), why)
         an = {n.id for n in g.nodes if n.kind == 'test' and norm(n.ast, limit=1000) in allowed}
